@@ -411,6 +411,40 @@ fn make_errtxt(pos: usize, input_bytes: &[u8]) -> Cow<str> {
 // parse an a2ml fragment in an a2l file
 // The target data structure is the parsing definition used by the a2l parser, so that the
 // a2ml can control the parsing of IF_DATA blocks
+/// how deep A2ML types may be nested (each struct, taggedstruct, taggedunion, array dimension and ( )* counts as one
+/// level). The A2ML parser and the IF_DATA parser recurse once per level, so an unlimited depth overflows the stack.
+pub(crate) const MAX_NESTING_DEPTH: usize = 100;
+
+// spec_depth()
+// the number of nesting levels of a type. All stored types are within MAX_NESTING_DEPTH, which bounds the recursion
+fn spec_depth(spec: &A2mlTypeSpec) -> usize {
+    match spec {
+        A2mlTypeSpec::None => 0,
+        A2mlTypeSpec::Array(inner, _) | A2mlTypeSpec::Sequence(inner) => 1 + spec_depth(inner),
+        A2mlTypeSpec::Struct(items) => 1 + items.iter().map(spec_depth).max().unwrap_or(0),
+        A2mlTypeSpec::TaggedStruct(items) | A2mlTypeSpec::TaggedUnion(items) => {
+            1 + items
+                .values()
+                .map(|tagged| spec_depth(&tagged.item))
+                .max()
+                .unwrap_or(0)
+        }
+        _ => 1,
+    }
+}
+
+// check_nesting()
+// a type of the given depth is used inside `depth` enclosing levels
+fn check_nesting(depth: usize, inner_depth: usize) -> Result<(), String> {
+    if depth + inner_depth > MAX_NESTING_DEPTH {
+        Err(format!(
+            "A2ML types are nested more than {MAX_NESTING_DEPTH} levels deep"
+        ))
+    } else {
+        Ok(())
+    }
+}
+
 pub(crate) fn parse_a2ml(
     filename: &Filename,
     input: &str,
@@ -434,32 +468,32 @@ pub(crate) fn parse_a2ml(
             TokenType::Block => {
                 // the top level only _needs_ exactly one block.
                 let tag = require_tag(&mut tok_iter)?;
-                let blk = parse_aml_tagged_def(&mut tok_iter, &types)?;
+                let blk = parse_aml_tagged_def(&mut tok_iter, &types, 0)?;
                 if tag == "IF_DATA" {
                     ifdata_block = Some(blk);
                 }
             }
 
             TokenType::Taggedstruct => {
-                let (optname, typ) = parse_aml_type(&mut tok_iter, &types, tok)?;
+                let (optname, typ) = parse_aml_type(&mut tok_iter, &types, tok, 0)?;
                 if let Some(name) = optname {
                     types.taggedstructs.insert(name, typ);
                 }
             }
             TokenType::Taggedunion => {
-                let (optname, typ) = parse_aml_type(&mut tok_iter, &types, tok)?;
+                let (optname, typ) = parse_aml_type(&mut tok_iter, &types, tok, 0)?;
                 if let Some(name) = optname {
                     types.taggedunions.insert(name, typ);
                 }
             }
             TokenType::Enum => {
-                let (optname, typ) = parse_aml_type(&mut tok_iter, &types, tok)?;
+                let (optname, typ) = parse_aml_type(&mut tok_iter, &types, tok, 0)?;
                 if let Some(name) = optname {
                     types.enums.insert(name, typ);
                 }
             }
             TokenType::Struct => {
-                let (optname, typ) = parse_aml_type(&mut tok_iter, &types, tok)?;
+                let (optname, typ) = parse_aml_type(&mut tok_iter, &types, tok, 0)?;
                 if let Some(name) = optname {
                     types.structs.insert(name, typ);
                 }
@@ -477,7 +511,7 @@ pub(crate) fn parse_a2ml(
             | TokenType::Uint64
             | TokenType::Double
             | TokenType::Float => {
-                parse_aml_type(&mut tok_iter, &types, tok)?;
+                parse_aml_type(&mut tok_iter, &types, tok, 0)?;
             }
             _ => {
                 return Err(format!("found unexpected token {tok:?}"));
@@ -502,7 +536,10 @@ fn parse_aml_type(
     tok_iter: &mut A2mlTokenIter,
     types: &TypeSet,
     tok_start: &TokenType,
+    depth: usize,
 ) -> Result<(Option<String>, A2mlTypeSpec), String> {
+    // every type is at least one level deep
+    check_nesting(depth, 1)?;
     match tok_start {
         TokenType::Char => Ok((None, A2mlTypeSpec::Char)),
         TokenType::Int => Ok((None, A2mlTypeSpec::Int)),
@@ -515,9 +552,9 @@ fn parse_aml_type(
         TokenType::Float => Ok((None, A2mlTypeSpec::Float)),
         TokenType::Double => Ok((None, A2mlTypeSpec::Double)),
         TokenType::Enum => parse_aml_type_enum(tok_iter, types),
-        TokenType::Struct => parse_aml_type_struct(tok_iter, types),
-        TokenType::Taggedstruct => parse_aml_type_taggedstruct(tok_iter, types),
-        TokenType::Taggedunion => parse_aml_type_taggedunion(tok_iter, types),
+        TokenType::Struct => parse_aml_type_struct(tok_iter, types, depth),
+        TokenType::Taggedstruct => parse_aml_type_taggedstruct(tok_iter, types, depth),
+        TokenType::Taggedunion => parse_aml_type_taggedunion(tok_iter, types, depth),
         _ => Err(format!(
             "unexpected token {tok_start:?} in type declaration"
         )),
@@ -596,6 +633,7 @@ fn parse_aml_type_enum(
 fn parse_aml_type_struct(
     tok_iter: &mut A2mlTokenIter,
     types: &TypeSet,
+    depth: usize,
 ) -> Result<(Option<String>, A2mlTypeSpec), String> {
     let name: Option<String> = parse_optional_name(tok_iter);
 
@@ -607,8 +645,9 @@ fn parse_aml_type_struct(
         _ => {
             // no group with content follows, must be a reference to an existing type
             if let Some(name) = name {
-                if let Some(A2mlTypeSpec::Struct(structitems)) = types.structs.get(&name) {
-                    return Ok((Some(name), A2mlTypeSpec::Struct(structitems.clone())));
+                if let Some(spec @ A2mlTypeSpec::Struct(_)) = types.structs.get(&name) {
+                    check_nesting(depth, spec_depth(spec))?;
+                    return Ok((Some(name), spec.clone()));
                 } else {
                     return Err(format!("struct {name} was referenced but not defined"));
                 }
@@ -625,7 +664,7 @@ fn parse_aml_type_struct(
     let mut structdata = Vec::new();
 
     loop {
-        structdata.push(parse_aml_member(tok_iter, types)?);
+        structdata.push(parse_aml_member(tok_iter, types, depth + 1)?);
         require_token_type(tok_iter, &TokenType::Semicolon)?;
 
         if let Some(TokenType::ClosedCurlyBracket) = tok_iter.peek() {
@@ -644,6 +683,7 @@ fn parse_aml_type_struct(
 fn parse_aml_type_taggedstruct(
     tok_iter: &mut A2mlTokenIter,
     types: &TypeSet,
+    depth: usize,
 ) -> Result<(Option<String>, A2mlTypeSpec), String> {
     let name: Option<String> = parse_optional_name(tok_iter);
 
@@ -655,8 +695,9 @@ fn parse_aml_type_taggedstruct(
         _ => {
             // no group with content follows, must be a reference to an existing type
             if let Some(name) = name {
-                if let Some(A2mlTypeSpec::TaggedStruct(tsitems)) = types.taggedstructs.get(&name) {
-                    return Ok((Some(name), A2mlTypeSpec::TaggedStruct(tsitems.clone())));
+                if let Some(spec @ A2mlTypeSpec::TaggedStruct(_)) = types.taggedstructs.get(&name) {
+                    check_nesting(depth, spec_depth(spec))?;
+                    return Ok((Some(name), spec.clone()));
                 } else {
                     return Err(format!(
                         "taggedstruct {name} was referenced but not defined"
@@ -672,7 +713,7 @@ fn parse_aml_type_taggedstruct(
     require_token_type(tok_iter, &TokenType::OpenCurlyBracket)?; // guaranteed to succeed
     let mut taggedstructdata = HashMap::new();
     loop {
-        let (itemname, itemdef) = parse_aml_taggedmember(tok_iter, types, true)?;
+        let (itemname, itemdef) = parse_aml_taggedmember(tok_iter, types, true, depth + 1)?;
         taggedstructdata.insert(itemname, itemdef);
         require_token_type(tok_iter, &TokenType::Semicolon)?;
 
@@ -691,6 +732,7 @@ fn parse_aml_type_taggedstruct(
 fn parse_aml_type_taggedunion(
     tok_iter: &mut A2mlTokenIter,
     types: &TypeSet,
+    depth: usize,
 ) -> Result<(Option<String>, A2mlTypeSpec), String> {
     let name: Option<String> = parse_optional_name(tok_iter);
 
@@ -702,8 +744,9 @@ fn parse_aml_type_taggedunion(
         _ => {
             // no group with content follows, must be a reference to an existing type
             if let Some(name) = name {
-                if let Some(A2mlTypeSpec::TaggedUnion(tsitems)) = types.taggedunions.get(&name) {
-                    return Ok((Some(name), A2mlTypeSpec::TaggedUnion(tsitems.clone())));
+                if let Some(spec @ A2mlTypeSpec::TaggedUnion(_)) = types.taggedunions.get(&name) {
+                    check_nesting(depth, spec_depth(spec))?;
+                    return Ok((Some(name), spec.clone()));
                 } else {
                     return Err(format!("taggedunion {name} was referenced but not defined"));
                 }
@@ -717,7 +760,7 @@ fn parse_aml_type_taggedunion(
     require_token_type(tok_iter, &TokenType::OpenCurlyBracket)?; // guaranteed to succeed
     let mut taggeduniondata = HashMap::new();
     loop {
-        let (itemname, itemdef) = parse_aml_taggedmember(tok_iter, types, false)?;
+        let (itemname, itemdef) = parse_aml_taggedmember(tok_iter, types, false, depth + 1)?;
         taggeduniondata.insert(itemname, itemdef);
         require_token_type(tok_iter, &TokenType::Semicolon)?;
 
@@ -737,6 +780,7 @@ fn parse_aml_taggedmember(
     tok_iter: &mut A2mlTokenIter,
     types: &TypeSet,
     allow_repeat: bool,
+    depth: usize,
 ) -> Result<(String, A2mlTaggedTypeSpec), String> {
     let mut tok = nexttoken(tok_iter)?;
 
@@ -758,7 +802,7 @@ fn parse_aml_taggedmember(
         let item = if let Some(TokenType::Semicolon | TokenType::ClosedRoundBracket) = tok_peek {
             A2mlTypeSpec::None
         } else {
-            parse_aml_tagged_def(tok_iter, types)?
+            parse_aml_tagged_def(tok_iter, types, depth)?
         };
         (
             (*tag).to_string(),
@@ -789,6 +833,7 @@ fn parse_aml_taggedmember(
 fn parse_aml_tagged_def(
     tok_iter: &mut A2mlTokenIter,
     types: &TypeSet,
+    depth: usize,
 ) -> Result<A2mlTypeSpec, String> {
     let mut inner_repeat = false;
     if let Some(TokenType::OpenRoundBracket) = tok_iter.peek() {
@@ -796,7 +841,8 @@ fn parse_aml_tagged_def(
         tok_iter.next();
     }
 
-    let mut member = parse_aml_member(tok_iter, types)?;
+    // the ( )* around the member is a level of its own
+    let mut member = parse_aml_member(tok_iter, types, depth + usize::from(inner_repeat))?;
 
     if inner_repeat {
         require_token_type(tok_iter, &TokenType::ClosedRoundBracket)?;
@@ -811,11 +857,19 @@ fn parse_aml_tagged_def(
 // Parse a member of some other data structure. Each member could potentially have an arbitrary number of array dimensions
 //    member = type_name [ array_specifier ]
 //    array_specifier = "[" constant "]" | "[" constant "]" array_specifier
-fn parse_aml_member(tok_iter: &mut A2mlTokenIter, types: &TypeSet) -> Result<A2mlTypeSpec, String> {
+fn parse_aml_member(
+    tok_iter: &mut A2mlTokenIter,
+    types: &TypeSet,
+    depth: usize,
+) -> Result<A2mlTypeSpec, String> {
     let tok_start = nexttoken(tok_iter)?;
-    let (_, mut base_type) = parse_aml_type(tok_iter, types, tok_start)?;
+    let (_, mut base_type) = parse_aml_type(tok_iter, types, tok_start, depth)?;
+    let mut levels = spec_depth(&base_type);
 
     while let Some(TokenType::OpenSquareBracket) = tok_iter.peek() {
+        // each array dimension is one more level
+        levels += 1;
+        check_nesting(depth, levels)?;
         /* get the array dim */
         require_token_type(tok_iter, &TokenType::OpenSquareBracket)?;
         let dim = require_constant(tok_iter)?;
